@@ -5,6 +5,7 @@ the chunked run returns exactly what the blocking run returns on the concatenate
 bytes, or the same error (truncated input: `unexpectedEof` in both).
 -/
 import WowVerif.Model.Chunk
+import WowVerif.Model.ChunkFrame
 namespace WowVerif.Chunk
 
 private theorem fill_spec (buf : Bytes) (cs : Schedule) (n : Nat) :
@@ -86,6 +87,80 @@ example : runWhole exDec [3, 97, 98, 99, 7] = .ok ([97, 98, 99], [7]) := by rfl
 example : runChunked exDec [] [none, some [3], none, none, some [97], some [98, 99, 7]] = .ok ([97, 98, 99], [7]) := by rfl
 example : runChunked exDec [] [some [3, 97], none] = .error .unexpectedEof := by rfl
 
+/-! ### the world header/body readers as scripts refine the frame reader of C02 -/
+section frames
+open WowVerif.Frame
+
+private theorem g_take {n i : Nat} (bs : Bytes) (h : i < n) : (bs.take n).getD i 0 = bs.getD i 0 := by
+  simp [List.getD, h]
+
+private theorem g_drop_take {n m i : Nat} (bs : Bytes) (h : i < m) : ((bs.drop n).take m).getD i 0 = bs.getD (n + i) 0 := by
+  simp [List.getD, h]
+
+private theorem client_case (api : Api) (e : Exp) (bs : Bytes) :
+    runWhole (frameDec e .client) bs = mapErr (readFrame api e .client bs) := by
+  simp only [frameDec, runWhole, readFrame, readHeader, take?, b]
+  by_cases h2 : 2 ≤ bs.length
+  · by_cases h6 : 6 ≤ bs.length
+    · have h4 : 4 ≤ (bs.drop 2).length := by simp; omega
+      simp only [h2, h6, h4, if_true]
+      simp only [g_take bs (show 0 < 2 by omega), g_take bs (show 1 < 2 by omega),
+        g_drop_take bs (show 0 < 4 by omega), g_drop_take bs (show 1 < 4 by omega), g_drop_take bs (show 2 < 4 by omega), g_drop_take bs (show 3 < 4 by omega),
+        List.drop_drop, g_take bs (show 0 < 6 by omega), g_take bs (show 1 < 6 by omega), g_take bs (show 2 < 6 by omega), g_take bs (show 3 < 6 by omega),
+        g_take bs (show 4 < 6 by omega), g_take bs (show 5 < 6 by omega)]
+      split <;> simp [mapErr]
+    · have h4 : ¬ 4 ≤ (bs.drop 2).length := by simp; omega
+      simp only [h2, h6, h4, ↓reduceIte, mapErr]
+  · have h6 : ¬ 6 ≤ bs.length := by omega
+    simp only [h2, h6, ↓reduceIte, mapErr]
+
+private theorem server_case (api : Api) (e : Exp) (bs : Bytes) :
+    runWhole (frameDec e .server) bs = mapErr (readFrame api e .server bs) := by
+  simp only [frameDec, readFrame, readHeader, take?, b]
+  by_cases hw : e = .wrath
+  · simp only [hw, ↓reduceIte, runWhole, true_and]
+    by_cases h4 : 4 ≤ bs.length
+    · simp only [h4, ↓reduceIte]
+      by_cases hl : ((bs.take 4).getD 0 0).toNat ≥ 128
+      · simp only [hl, ↓reduceIte, runWhole]
+        by_cases h1 : 1 ≤ (bs.drop 4).length
+        · simp only [h1, ↓reduceIte]
+          split <;> simp [mapErr]
+        · simp only [h1, ↓reduceIte, mapErr]
+      · simp only [hl, ↓reduceIte, runWhole]
+        split <;> simp [mapErr]
+    · simp only [h4, ↓reduceIte, mapErr]
+  · simp only [hw, ↓reduceIte, runWhole, false_and]
+    by_cases h2 : 2 ≤ bs.length
+    · by_cases h4 : 4 ≤ bs.length
+      · have h2' : 2 ≤ (bs.drop 2).length := by simp; omega
+        simp only [h2, h4, h2', ↓reduceIte]
+        simp only [g_take bs (show 0 < 2 by omega), g_take bs (show 1 < 2 by omega),
+          g_drop_take bs (show 0 < 2 by omega), g_drop_take bs (show 1 < 2 by omega),
+          List.drop_drop, g_take bs (show 0 < 4 by omega), g_take bs (show 1 < 4 by omega), g_take bs (show 2 < 4 by omega), g_take bs (show 3 < 4 by omega)]
+        split <;> simp [mapErr]
+      · have h2' : ¬ 2 ≤ (bs.drop 2).length := by simp; omega
+        simp only [h2, h4, h2', ↓reduceIte, mapErr]
+    · have h4 : ¬ 4 ≤ bs.length := by omega
+      simp only [h2, h4, ↓reduceIte, mapErr]
+
+/-- the script run on a whole buffer IS `Frame.readFrame` (the reader model that C02/C05 tie to the code) -/
+theorem frameDec_refines (api : Api) (e : Exp) (d : Dir) (bs : Bytes) :
+    runWhole (frameDec e d) bs = mapErr (readFrame api e d bs) := by
+  cases d
+  · exact client_case api e bs
+  · exact server_case api e bs
+
+/-- **world readers under any chunking**: the async header/body reader over any schedule returns what the blocking frame
+reader returns on the concatenated bytes -/
+theorem frame_chunked (api : Api) (e : Exp) (d : Dir) (cs : Schedule) :
+    runChunked (frameDec e d) [] cs = mapErr (readFrame api e d (flatten cs)) := by
+  rw [async_eq_blocking, frameDec_refines]
+
+example : runChunked (frameDec .wrath .server) [] [some [0x80], none, some [0x00, 0x03], some [0xAA, 0x04, 0x07], none, some [9]]
+    = .ok ((0x04AA, [0x07]), [9]) := by rfl
+end frames
+
 end WowVerif.Chunk
 
 open WowVerif.Chunk in
@@ -94,3 +169,7 @@ open WowVerif.Chunk in
 #print axioms schedules_agree
 open WowVerif.Chunk in
 #print axioms eof_kind
+open WowVerif.Chunk in
+#print axioms frameDec_refines
+open WowVerif.Chunk in
+#print axioms frame_chunked
